@@ -78,6 +78,32 @@ pub fn cnt(i: usize) -> usize {
     unsafe { LEDGER.cnt[i] }
 }
 
+/// Counts the code under proof legitimately owns (L2 only): +1 per increment it makes and per
+/// count handed to it (a paid debt, a received envelope), -1 per decrement it makes.
+pub static mut MINE: [isize; POOL] = [0; POOL];
+pub static mut TRACK_MINE: bool = false;
+/// The incarnation currently living at this address belongs to another pointer kind / pointee type.
+pub static mut FOREIGN_KIND: [bool; POOL] = [false; POOL];
+
+pub fn track_mine(on: bool) {
+    unsafe {
+        TRACK_MINE = on;
+        if on {
+            MINE = [0; POOL];
+            FOREIGN_KIND = [false; POOL];
+        }
+    }
+}
+pub fn mine(i: usize) -> isize {
+    unsafe { MINE[i] }
+}
+pub fn mine_add(i: usize, d: isize) {
+    unsafe { MINE[i] += d }
+}
+pub fn set_foreign_kind(i: usize, f: bool) {
+    unsafe { FOREIGN_KIND[i] = f }
+}
+
 fn ledger_inc(a: usize) {
     let i = match index_of(a) {
         Some(i) => i,
@@ -90,8 +116,11 @@ fn ledger_inc(a: usize) {
         vassert!(LEDGER.alive[i], "count_incremented_after_destruction");
         LEDGER.cnt[i] += 1;
         LEDGER.incs[i] += 1;
+        if TRACK_MINE {
+            MINE[i] += 1;
+        }
     }
-    log_push(Rec { kind: K_INC, addr: a, a: 0, b: 0, res: 0, ok: true, ord: 0 });
+    observe(Rec { kind: K_INC, addr: a, a: 0, b: 0, res: 0, ok: true, ord: 0 });
 }
 
 fn ledger_dec(a: usize) {
@@ -104,6 +133,11 @@ fn ledger_dec(a: usize) {
     };
     unsafe {
         vassert!(LEDGER.alive[i] && LEDGER.cnt[i] > 0, "count_decremented_after_destruction");
+        if TRACK_MINE {
+            vassert!(MINE[i] > 0, "released_a_count_it_did_not_own");
+            vassert!(!FOREIGN_KIND[i], "release_kind_matches_payer");
+            MINE[i] -= 1;
+        }
         LEDGER.cnt[i] -= 1;
         LEDGER.decs[i] += 1;
         if LEDGER.cnt[i] == 0 {
@@ -111,7 +145,7 @@ fn ledger_dec(a: usize) {
             LEDGER.destroyed[i] += 1;
         }
     }
-    log_push(Rec { kind: K_DEC, addr: a, a: 0, b: 0, res: 0, ok: true, ord: 0 });
+    observe(Rec { kind: K_DEC, addr: a, a: 0, b: 0, res: 0, ok: true, ord: 0 });
 }
 
 /// The abstract counted pointer. Holding a `TP` value == owning one reference.
@@ -155,7 +189,13 @@ unsafe impl RefCnt for TP {
     }
 }
 
-// ------------------------------------------------------------------------------------ event log
+// ------------------------------------------------------------------------------------ event monitor
+//
+// Trace contracts are checked by an *online monitor* (constant work per event, no log to scan):
+// a harness registers up to NW watches (event kind, address) before the call and reads, after the
+// call, how often each matched and the sequence numbers / records of its first and last match;
+// publication / payment events on the 9 debt slots of one node are tracked per slot; two
+// contract-specific monitors (L-W1 for pay_all, the reader's guarantee) assert on the fly.
 
 pub const K_LOAD: u8 = 0;
 pub const K_STORE: u8 = 1;
@@ -166,7 +206,9 @@ pub const K_ADD: u8 = 5;
 pub const K_SUB: u8 = 6;
 pub const K_INC: u8 = 10;
 pub const K_DEC: u8 = 11;
-pub const K_USER: u8 = 12;
+/// watch-only pseudo kinds
+pub const K_CAS_ANY: u8 = 20; // strong or weak compare-exchange, successful or not
+pub const K_WRITE: u8 = 21; // store, swap, fetch_add/sub or a *successful* compare-exchange
 
 pub const O_RELAXED: u8 = 0;
 pub const O_RELEASE: u8 = 1;
@@ -216,47 +258,236 @@ pub struct Rec {
     pub ord: u8,
 }
 
-pub const LOG_CAP: usize = 64;
 const EMPTY: Rec = Rec { kind: 255, addr: 0, a: 0, b: 0, res: 0, ok: false, ord: 0 };
-pub static mut LOG: [Rec; LOG_CAP] = [EMPTY; LOG_CAP];
-pub static mut LOG_LEN: usize = 0;
-/// Number of atomic operations (shim events) performed since `log_reset` – the step counter.
-pub static mut STEPS: usize = 0;
 
+pub fn is_write(r: &Rec) -> bool {
+    r.kind == K_STORE || r.kind == K_SWAP || r.kind == K_ADD || r.kind == K_SUB || ((r.kind == K_CAS || r.kind == K_CASW) && r.ok)
+}
+
+#[derive(Clone, Copy)]
+pub struct Watch {
+    pub kind: u8,
+    pub addr: usize,
+    pub count: usize,
+    /// sequence number (1-based, over all observed events incl. inc/dec) of the first / last match; 0 = none
+    pub first: usize,
+    pub last: usize,
+    pub first_rec: Rec,
+    pub last_rec: Rec,
+}
+
+pub const NW: usize = 10;
+const NOWATCH: Watch = Watch { kind: 255, addr: 0, count: 0, first: 0, last: 0, first_rec: EMPTY, last_rec: EMPTY };
+
+pub struct Monitor {
+    pub seq: usize,
+    /// number of atomic operations (shim events) = the step counter
+    pub steps: usize,
+    /// number of write events among them
+    pub writes: usize,
+    pub first: Rec,
+    pub last: Rec,
+    pub watch: [Watch; NW],
+    pub nwatch: usize,
+    // per debt slot of the tracked node
+    pub slot_addr: [usize; 9],
+    pub slot_pub: [usize; 9],      // seq of the last swap on the slot (publication)
+    pub slot_pub_rec: [Rec; 9],
+    pub slot_pay: [usize; 9],      // seq of the last successful CAS x -> NONE
+    pub slot_pay_exp: [usize; 9],  // its expected value
+    pub slot_cas: [usize; 9],      // seq of the last CAS attempt on the slot
+    // L-W1 (pay_all) online monitor
+    pub lw1_ptr: usize,
+    pub lw1_incs: usize,
+    pub lw1_paid: usize,
+    pub lw1_decs: usize,
+    pub lw1_paid_at_dec: usize,
+    // reader guarantee online monitor
+    pub reader_storage: usize,
+}
+
+pub static mut MON: Monitor = Monitor {
+    seq: 0,
+    steps: 0,
+    writes: 0,
+    first: EMPTY,
+    last: EMPTY,
+    watch: [NOWATCH; NW],
+    nwatch: 0,
+    slot_addr: [0; 9],
+    slot_pub: [0; 9],
+    slot_pub_rec: [EMPTY; 9],
+    slot_pay: [0; 9],
+    slot_pay_exp: [0; 9],
+    slot_cas: [0; 9],
+    lw1_ptr: 0,
+    lw1_incs: 0,
+    lw1_paid: 0,
+    lw1_decs: 0,
+    lw1_paid_at_dec: 0,
+    reader_storage: 0,
+};
+
+pub fn mon() -> &'static mut Monitor {
+    unsafe { &mut MON }
+}
+
+/// Forget everything observed and every registration.
 pub fn log_reset() {
-    unsafe {
-        LOG_LEN = 0;
-        STEPS = 0;
+    let m = mon();
+    m.seq = 0;
+    m.steps = 0;
+    m.writes = 0;
+    m.first = EMPTY;
+    m.last = EMPTY;
+    m.nwatch = 0;
+    let mut i = 0;
+    while i < 9 {
+        m.slot_addr[i] = 0;
+        m.slot_pub[i] = 0;
+        m.slot_pay[i] = 0;
+        m.slot_cas[i] = 0;
+        i += 1;
+    }
+    m.lw1_ptr = 0;
+    m.lw1_incs = 0;
+    m.lw1_paid = 0;
+    m.lw1_decs = 0;
+    m.lw1_paid_at_dec = 0;
+    m.reader_storage = 0;
+}
+
+/// Registers a watch; returns its id.
+pub fn watch(kind: u8, addr: usize) -> usize {
+    let m = mon();
+    let id = m.nwatch;
+    vassert!(id < NW, "too_many_watches_in_harness");
+    m.watch[id] = Watch { kind, addr, count: 0, first: 0, last: 0, first_rec: EMPTY, last_rec: EMPTY };
+    m.nwatch += 1;
+    id
+}
+
+pub fn w(id: usize) -> Watch {
+    mon().watch[id]
+}
+
+/// Track publication / payment events on these 9 slot cells.
+pub fn track_slots(addrs: [usize; 9]) {
+    mon().slot_addr = addrs;
+}
+
+pub fn monitor_lw1(ptr: usize) {
+    mon().lw1_ptr = ptr;
+}
+
+pub fn monitor_reader(storage: usize) {
+    mon().reader_storage = storage;
+}
+
+pub fn steps() -> usize {
+    mon().steps
+}
+pub fn writes() -> usize {
+    mon().writes
+}
+
+fn kind_matches(w: u8, r: &Rec) -> bool {
+    if w == K_CAS_ANY {
+        r.kind == K_CAS || r.kind == K_CASW
+    } else if w == K_WRITE {
+        is_write(r)
+    } else {
+        w == r.kind
     }
 }
 
-pub fn log_push(r: Rec) {
-    unsafe {
-        if LOG_LEN < LOG_CAP {
-            LOG[LOG_LEN] = r;
-            LOG_LEN += 1;
-        } else {
-            vassert!(false, "event_log_overflow_more_atomic_steps_than_any_contract_allows");
+const NONE_MARK: usize = 0b11;
+
+/// The single entry point of the monitor: called for every atomic event and every inc/dec.
+pub fn observe(r: Rec) {
+    let m = mon();
+    m.seq += 1;
+    let seq = m.seq;
+    if r.kind < K_INC {
+        m.steps += 1;
+        if m.steps == 1 {
+            m.first = r;
+        }
+        m.last = r;
+        if is_write(&r) {
+            m.writes += 1;
+        }
+    }
+    let mut i = 0;
+    while i < NW {
+        if i < m.nwatch && m.watch[i].addr == r.addr && kind_matches(m.watch[i].kind, &r) {
+            let wt = &mut m.watch[i];
+            wt.count += 1;
+            if wt.first == 0 {
+                wt.first = seq;
+                wt.first_rec = r;
+            }
+            wt.last = seq;
+            wt.last_rec = r;
+        }
+        i += 1;
+    }
+    let mut slot = 9;
+    i = 0;
+    while i < 9 {
+        if m.slot_addr[i] != 0 && m.slot_addr[i] == r.addr {
+            slot = i;
+        }
+        i += 1;
+    }
+    if slot < 9 {
+        if r.kind == K_SWAP {
+            m.slot_pub[slot] = seq;
+            m.slot_pub_rec[slot] = r;
+        }
+        if r.kind == K_CAS || r.kind == K_CASW {
+            m.slot_cas[slot] = seq;
+            if r.ok && r.b == NONE_MARK {
+                m.slot_pay[slot] = seq;
+                m.slot_pay_exp[slot] = r.a;
+            }
+        }
+    }
+    // L-W1: one increment is made before the first payment and after every payment; exactly one
+    // release, after the last payment
+    if m.lw1_ptr != 0 {
+        if r.kind == K_INC && r.addr == m.lw1_ptr {
+            m.lw1_incs += 1;
+        }
+        if r.kind == K_DEC && r.addr == m.lw1_ptr {
+            m.lw1_decs += 1;
+            m.lw1_paid_at_dec = m.lw1_paid;
+        }
+        if (r.kind == K_CAS || r.kind == K_CASW) && r.a == m.lw1_ptr && r.b == NONE_MARK && r.addr != 0 {
+            vassert!(m.lw1_decs == 0, "pay_all_no_release_before_last_slot_cas");
+            if r.ok {
+                vassert!(m.lw1_incs == m.lw1_paid + 1, "pay_all_every_payment_hands_over_an_increment_already_made");
+                m.lw1_paid += 1;
+            }
+        }
+    }
+    // reader's guarantee: the storage is only read; a slot is taken only by a swap that found it
+    // free and given up only by a CAS to NONE
+    if m.reader_storage != 0 && is_write(&r) {
+        vassert!(r.addr != m.reader_storage, "reader_never_writes_the_storage");
+        if slot < 9 {
+            if r.kind == K_SWAP {
+                vassert!(r.res == NONE_MARK, "reader_takes_only_slots_that_are_free");
+            } else {
+                vassert!((r.kind == K_CAS || r.kind == K_CASW) && r.b == NONE_MARK, "reader_releases_slots_only_by_cas_to_none");
+            }
         }
     }
 }
 
-pub fn log_len() -> usize {
-    unsafe { LOG_LEN }
-}
-
-pub fn log_at(i: usize) -> Rec {
-    unsafe { LOG[i] }
-}
-
-pub fn steps() -> usize {
-    unsafe { STEPS }
-}
-
 /// Plain recording `after` hook (no interference).
 pub fn record_after(ev: &Event) {
-    unsafe { STEPS += 1 };
-    log_push(Rec {
+    observe(Rec {
         kind: op_code(ev.op),
         addr: ev.addr,
         a: ev.a,
@@ -265,47 +496,4 @@ pub fn record_after(ev: &Event) {
         ok: ev.ok,
         ord: ord_code(ev.ord),
     });
-}
-
-/// Index of the first log record at or after `from` matching (kind, addr), or LOG_CAP.
-pub fn find(from: usize, kind: u8, addr: usize) -> usize {
-    let mut i = from;
-    let n = log_len();
-    while i < n {
-        let r = log_at(i);
-        if r.kind == kind && r.addr == addr {
-            return i;
-        }
-        i += 1;
-    }
-    LOG_CAP
-}
-
-/// Number of log records matching (kind, addr).
-pub fn count(kind: u8, addr: usize) -> usize {
-    let mut i = 0;
-    let mut c = 0;
-    let n = log_len();
-    while i < n {
-        let r = log_at(i);
-        if r.kind == kind && r.addr == addr {
-            c += 1;
-        }
-        i += 1;
-    }
-    c
-}
-
-/// Number of log records of the given kind.
-pub fn count_kind(kind: u8) -> usize {
-    let mut i = 0;
-    let mut c = 0;
-    let n = log_len();
-    while i < n {
-        if log_at(i).kind == kind {
-            c += 1;
-        }
-        i += 1;
-    }
-    c
 }
